@@ -1202,6 +1202,14 @@ def fixed_cases():
          "parameter annotation under the inner declaration"),
         ("type-alias-chain", 'type A = int;\ntype B = [A];\nfn main() { let b: B = [1, 2]; let c: B = ["x"]; println(b, c); }\n', True,
          "alias of an alias: wrong element type"),
+        # a function type that names a parameter twice, wherever a type can stand
+        ("fntype-dup-param-typedef", "type Cb = fn(x: int, x: str) -> null;\nfn main() { }\n", True, "duplicate parameter name in a function type (type definition)"),
+        ("fntype-dup-param-let", "fn main() { let f: fn(a: int, a: int) -> int = fn(a: int, b: int) -> int { a }; println(f(1, 2)); }\n", True,
+         "duplicate parameter name in a function type (let annotation)"),
+        ("fntype-dup-param-param", "fn ap(f: fn(k: str, k: str) -> str) -> str { f(\"a\", \"b\") }\nfn main() { }\n", True,
+         "duplicate parameter name in a function type (parameter)"),
+        ("fntype-dup-param-nested", "type L = [?fn(q: bool, q: bool) -> bool];\nfn main() { }\n", True, "duplicate parameter name in a function type nested in a list type"),
+        ("fntype-distinct-params", "type Cb = fn(x: int, y: int) -> null;\nfn main() { }\n", False, "distinct parameter names"),
         ("main-missing", "fn f() { }\n", True, "no main"),
         ("main-ok", "fn main() { }\n", False, "empty main"),
         ("empty-match", "fn main() { let y: int = match 1 { }; println(y); }\n", True, "match without arms has no value"),
